@@ -32,6 +32,11 @@ CHECKS = {
                    "framing by a real HTTP stack is represented by httptest.ResponseRecorder only",
         "assumptions": E2E_ASSUME,
     },
+    "C13": {
+        "module": "Vanguard.Props.C13", "namespace": "Vanguard.C13", "streams": ["passthru", "e2e"],
+        "partial": "the Proto string of a gRPC pass-through is rewritten from HTTP/2.0 to HTTP/2 (major/minor unchanged); only major is compared",
+        "assumptions": E2E_ASSUME,
+    },
     "C18": {
         "module": "Vanguard.Props.C18", "namespace": "Vanguard.C18", "streams": ["e2e"],
         "partial": "no I/O after return is observed by the harness (vanguard starts no goroutine), not modelled",
